@@ -346,7 +346,13 @@ fn ctl_helper_zs_cols<F: Field, const N: usize>(
     challenge: GrandProductChallenge<F>,
     constraint_degree: usize,
 ) -> Vec<(usize, Vec<PolynomialValues<F>>)> {
-    let grouped_lookups = looking_tables.iter().group_by(|a| a.table);
+    // Group all the occurrences of a table, consecutive or not: every consumer of the CTL
+    // declaration counts one running sum per (CTL, looking table). The sort is stable, so the
+    // column sets of a table keep their declaration order.
+    let grouped_lookups = looking_tables
+        .iter()
+        .sorted_by_key(|a| a.table)
+        .group_by(|a| a.table);
 
     grouped_lookups
         .into_iter()
